@@ -5,7 +5,7 @@ from checks.common import *
 
 LEVEL = "proof"
 RULE = ("per suite: the eleven decoders x {valid encoding; every/selected lengths 0..L+64 as prefix, zero-, "
-        "random- and self-extension; tag/leading byte values of every group-element and scalar field; "
+        "random- and self-extension (incl. one more / fewer field of every size of the suite and whole multiples);  tag/leading byte values of every group-element and scalar field; "
         "single-byte substitutions; non-reduced / invalid field encodings}. A case is one decode call; "
         "non-trivial = the input is not the valid encoding itself; distinct = distinct (suite, type, input)")
 ASSUMPTIONS = ["ristretto255 canonical-encoding law (RFC 9496) is a hypothesis of the generic theorem, exercised by the battery",
@@ -36,7 +36,11 @@ def decoders(ctx, thorough=False, nsub=40):
         r = dec(ty, v, "valid")
         ctx.expect(r.ok, "%s: valid encoding decodes" % ty)
         # lengths
-        lens = range(0, n + 65) if thorough else sorted(set([0, 1, n - 1, n + 1, n + 2, n + 64] + [rnd.randrange(0, n + 64) for _ in range(6)]))
+        # structural lengths: one more / fewer field of each size the suite knows, whole multiples of the encoding
+        unit = sorted({L.Nh, L.Noe, L.Nok, L.Npk, L.Nsk, NN, 1, 2, 16})
+        structural = {n + u for u in unit} | {n - u for u in unit if u < n} | {n + 2 * L.Nh, n + 3 * L.Nh, 2 * n, 3 * n, n + n // 3}
+        lens = (sorted(set(range(0, n + 65)) | structural) if thorough
+                else sorted(set([0, 1, n - 1, n + 1, n + 2, n + 64] + [rnd.randrange(0, n + 64) for _ in range(6)]) | structural))
         for l in lens:
             if l == n:
                 continue
@@ -69,7 +73,7 @@ def decoders(ctx, thorough=False, nsub=40):
             x = rnd.randrange(256)
             dec(ty, v[:o] + bytes([x]) + v[o + 1:], "substitution at %d" % o)
     # key-level decoders
-    for label, b in invalid_elements(L.ke, rnd):
+    for label, b in invalid_elements(L.ke, rnd) + alternative_point_encodings(L.ke, rnd):
         r = ctx.call("ke_pk", b)
         if r.ok:
             ctx.expect(r.b(0) == b, "ke_pk: accepted encoding re-encodes to itself (%s)" % label)
